@@ -106,6 +106,8 @@ func codecKeys() []string {
 	for n := 4; n <= 64; n++ {
 		keys = append(keys, strings.Repeat("k", n-1)+"\xfe")
 	}
+	// valid multi-byte UTF-8 (2-, 3- and 4-byte runes, combining marks): byte length and rune count differ
+	keys = append(keys, "é", "ключ", "日本語", "\U0001D11E", "e\u0301", "café.txt", "a\u00a0b", strings.Repeat("ü", 40), "\U0001F600x\U0001F600")
 	for _, n := range []int{255, 256, 65535} {
 		k := make([]byte, n)
 		for i := range k {
